@@ -88,7 +88,7 @@ func TestF14_StderrEOFBeforeStdoutCounted(t *testing.T) {
 	t.Logf("%d failed starts, no WaitGroup panic", n)
 }
 
-// F11 (C19, fixed by f96a7bf): histories Start,Start / Start,Client / Start,Kill,Start on a
+// F11 (C19, fixed by f9c8f26): histories Start,Start / Start,Client / Start,Kill,Start on a
 // RunnerFunc plugin whose first start fails after launch must launch exactly once.
 func TestF11_NoRelaunchAfterFailedStart(t *testing.T) {
 	for _, hist := range [][]string{{"Start", "Start"}, {"Start", "Client", "Protocol"}, {"Start", "Kill", "Start"}, {"Client", "Kill", "Client"}} {
